@@ -1852,6 +1852,53 @@ class ConstStructWhole(Base):
       s.p @= s.KP
 
 
+# ------------------------------------------------------------------ index names: closure before global, comprehension variables
+NIDX = 0      # deliberately different from the construct-level NIDX below
+gi = 0        # deliberately the name of the generator-expression variable below
+
+
+@design(lambda st, a, b, sel, en, reset: (None, {"o": (b + 2) & M8, "p": (2 * a + 2 * b + 6) & M8, "q": (b + 3) & M8}))
+class IndexNameScopes(Base):
+  """an index that is a variable of construct() with the name of a (different) module-level variable; an index bound by a
+  generator expression / a lambda inside the block, again with the name of a module-level variable"""
+  def construct(s):
+    s.ports()
+    s.o = OutPort(Bits8)
+    s.p = OutPort(Bits8)
+    s.q = OutPort(Bits8)
+    s.w = [Wire(Bits8) for _ in range(4)]
+    NIDX = 2
+
+    @update
+    def up_ins_w0():
+      s.w[0] @= s.a
+
+    @update
+    def up_ins_w1():
+      s.w[1] @= s.b + 1
+
+    @update
+    def up_ins_w2():
+      s.w[2] @= s.b + 2
+
+    @update
+    def up_ins_w3():
+      s.w[3] @= s.a + 3
+
+    @update
+    def up_ins_o():
+      s.o @= s.w[NIDX]
+
+    @update
+    def up_ins_p():
+      s.p @= sum(s.w[gi] for gi in range(4))
+
+    @update
+    def up_ins_q():
+      pick = lambda gi: s.w[gi]
+      s.q @= pick(1) + 2
+
+
 def sequences():
   """input sequences (lists of dicts): one long deterministic walk covering every (sel, en) with varied a, b; reset pulses inside"""
   A = (0, 1, 0x5A, 0xFF, 0x80, 0x0F, 0x37)
